@@ -165,6 +165,61 @@ def work(arg):
     return {"viol": [(s, c, d) for s, (c, d) in best.items()], "nh": nh, "nops": nops, "outcomes": outcomes}
 
 
+def boundary_leg(ctx):
+    """Every serialized size in a window around each threshold (value_store_min_size, max_value_size): record, get, reopen, get."""
+    from redun.backends.db import RedunDatabaseError
+    from redun.value import get_type_registry
+
+    from engine import common, seams
+
+    reg = get_type_registry()
+    root = os.path.join(common.scratch_dir(), f"c31b-{os.getpid()}")
+    n = 0
+    overhead = len(reg.serialize("")) if len(reg.serialize("x" * 10)) - len(reg.serialize("")) == 10 else None
+    for cfg in ({"min": 200, "max": 10**9}, {"min": 64, "max": 10**9}, {"min": 0, "max": 300}, {"min": 200, "max": 300}):
+        shutil.rmtree(root, ignore_errors=True)
+        os.makedirs(root)
+        db = os.path.join(root, "redun.db")
+        shutil.copyfile(seams.template_db(), db)
+        conf = {"max_value_size": cfg["max"], "value_store_path": os.path.join(root, "store"), "value_store_min_size": cfg["min"]}
+        b = seams.open_backend(db, **conf)
+        try:
+            centers = {cfg["min"], cfg["max"]} - {0, 10**9}
+            sizes = sorted({c + d for c in centers for d in range(-ctx.pick(45, 80), 8)})
+            recorded = {}
+            for size in sizes:
+                v = "s" * max(0, size - (overhead or 0))
+                data = reg.serialize(v)
+                case = {"config": cfg, "serialized_size": len(data)}
+                n += 1
+                try:
+                    h = b.record_value(v)
+                except RedunDatabaseError:
+                    b.session.rollback()
+                    if len(data) <= cfg["max"]:
+                        ctx.violation("boundary:record-rejected", case, f"{cfg}: {len(data)} bytes rejected")
+                    continue
+                if len(data) > cfg["max"]:
+                    ctx.violation("boundary:oversize-accepted", case, f"{cfg}: value of {len(data)} bytes accepted")
+                    continue
+                recorded[h] = (v, case)
+            for phase in ("same backend object", "reopened backend"):
+                for h, (v, case) in recorded.items():
+                    got, ok = b.get_value(h)
+                    n += 1
+                    if not ok or got != v:
+                        ctx.violation(f"boundary:get-loses-value:{'near-min' if abs(case['serialized_size'] - cfg['min']) < 100 else 'near-max'}",
+                                      dict(case, phase=phase), f"{cfg}: a value of {case['serialized_size']} serialized bytes was recorded without error "
+                                      f"but reads back as {'absent' if not ok else 'another value'} ({phase})")
+                        break
+                seams.close_backend(b)
+                b = seams.open_backend(db, **conf)
+        finally:
+            seams.close_backend(b)
+    shutil.rmtree(root, ignore_errors=True)
+    return n
+
+
 def run(ctx):
     from engine import seams
     from engine.common import check_harness_errors
@@ -178,12 +233,14 @@ def run(ctx):
     check_harness_errors(res)
     ctx.add_results(res)
     outcomes = set().union(*[r["outcomes"] for r in res])
+    n_boundary = boundary_leg(ctx)
     return {"coverage": {
         "states": sum(r["nh"] for r in res), "transitions": sum(r["nops"] for r in res), "traces_validated_against_impl": sum(r["nh"] for r in res),
-        "distinct_get_outcomes": len(outcomes), "history_length": L, "configs": len(CONFIGS), "exhaustive": True,
+        "distinct_get_outcomes": len(outcomes), "boundary_operations": n_boundary, "history_length": L, "configs": len(CONFIGS), "exhaustive": True,
         "rule": f"for 6 backend configurations (value_store_min_size 0 / 200 / huge / no store, max_value_size small / huge) all histories of {L} "
         "operations over 6 values with serialized sizes straddling the thresholds (incl. a nested list and a FileCache-typed value): record, get, "
         "delete the offloaded bytes (value-store file / cache file), reopen the backend; oracle: reference dict hash -> value|absent; get returns the "
-        "value hashing to the key, or absent after its offloaded bytes were removed; oversize values are rejected",
+        "value hashing to the key, or absent after its offloaded bytes were removed; oversize values are rejected; boundary leg: every serialized size in a window of 45 (thorough 80) bytes below to 7 above each "
+        "threshold is recorded and read back (same and reopened backend)",
         "samples": [{"config": i[0], "first": list(i[1])} for i in items[:3]],
     }, "assumptions": ["local value store; the backend is always reopened with the same configuration"]}
